@@ -152,6 +152,7 @@ func main() {
 				tf     typed.TFilter
 				uf     ecs.UnsafeFilter
 				rels   []ecs.Relation // non-nil: pass this (shared) slice instead of building one
+				urels  []ecs.Relation // non-nil: the (shared) argument list of an unsafe query
 			}
 			plans := make([][]step, G)
 			for gi := 0; gi < G; gi++ {
@@ -222,6 +223,30 @@ func main() {
 				panel = append(panel, pe)
 				res.Counters["collision-filters"]++
 			}
+			// ... and before those, one ID-based filter over a relation component that every goroutine queries with the same
+			// []ecs.Relation built with ecs.Rel[T] (resolved lazily by the library): the very first thing each goroutine does
+			// after the barrier, i.e. before it has passed through any mutex
+			{
+				rc := u.RelIdx[(c+phase)%3]
+				tgt := eng.ZeroE
+				for e := len(m.Ents) - 1; e >= 0; e-- {
+					if m.Ents[e].Alive && m.Ents[e].Mask.Has(rc) {
+						tgt = m.Ents[e].Tgt[rc]
+						break
+					}
+				}
+				spec := &eng.FSpec{Kind: eng.FUnsafe, With: []int{rc}}
+				qrels := []eng.RelT{{C: rc, T: tgt}}
+				pe := panelEntry{spec: spec, uf: d.BuildUnsafe(spec)}
+				shared := []ecs.Relation{u.Types[rc].Rel(d.Handle(tgt))}
+				expect := m.Select(spec, qrels)
+				for gi := 0; gi < G; gi++ {
+					s := step{pi: len(panel), spec: spec, uf: pe.uf, qrels: qrels, expect: expect, mode: 2 + gi%3, urels: shared}
+					plans[gi] = append([]step{s}, plans[gi]...)
+				}
+				panel = append(panel, pe)
+				res.Counters["shared-relation-lists-for-unsafe-queries"]++
+			}
 			holdAll := phase == 1 && G == 64 // all 64 queries open at the same time
 			start := make(chan struct{})
 			var wg, opened sync.WaitGroup
@@ -267,7 +292,11 @@ func main() {
 								<-release
 							}
 						}
-						n, errs := runQuery(d, m, tf, uf, s.spec, s.qrels, s.rels, order, want, s.mode, gi, G, onOpen)
+						rels := s.rels
+						if s.urels != nil {
+							rels = s.urels
+						}
+						n, errs := runQuery(d, m, tf, uf, s.spec, s.qrels, rels, order, want, s.mode, gi, G, onOpen)
 						nq++
 						nv += int64(n)
 						local = append(local, errs...)
@@ -427,7 +456,11 @@ func runQuery(d *eng.Drv, m *eng.Model, tf typed.TFilter, uf ecs.UnsafeFilter, s
 		}
 	} else {
 		all := append(append([]eng.RelT{}, spec.Rels...), qrels...)
-		q := uf.Query(d.Rels(all, nil, gi%2)...)
+		args := shared
+		if args == nil {
+			args = d.Rels(all, nil, gi%2)
+		}
+		q := uf.Query(args...)
 		if onOpen != nil {
 			onOpen()
 		}
